@@ -22,7 +22,20 @@
  B. OPTION cases (~35 %; in process): `markdown.__main__.parse_options(argv)` for random argv (short/long/attached/`=`
     spellings, unambiguous abbreviations, repeated options, interspersed positionals, `--`, -c with JSON or YAML files in
     the encoding given by -e, -q/-v/--noisy) against the expected (kwargs dict, verbosity) computed here.
- C. CLI cases (a few per call: a subprocess each): `python -m markdown` with -e/-o/-f/-x/-c/-n, input file or stdin (stdin:
+    BIG and EMPTY documents: the first two file cases of every call go to STDOUT in an encoding whose encoder emits a byte-order mark
+    (utf-16, utf-32, utf-8-sig), one with more than 64Ki characters of HTML (a filler code block / raw block / long paragraph of
+    65 600 - 132 000 characters of the encoding's repertoire, so that any block-wise writing has a boundary inside it), one with an
+    empty / white-space-only document (the output is the bare BOM); the same two shapes occur at random (~1 % / 2 %) with every
+    encoding, input and output kind, and in the command-line cases.
+    `!!python/name:` values in YAML config files (only when PyYAML is the loader): option cases name a function of a standard-library
+    module that is NOT IMPORTED when the options are parsed (the oracle removes that leaf module from sys.modules first); the loader has
+    to import it.  Command-line and M cases with `toc` pass `slugify: !!python/name:markdown.extensions.toc.slugify_unicode` (in the
+    fresh process of a command-line case the extension module is not imported yet when the file is read).
+ M. MAIN cases (n/60 per call; in process): `markdown.__main__.run()` with sys.argv set (-e/-o/-x/-c/-n/-f and -q/-v/--noisy), input
+    file, output file or stdout (sys.stdout replaced by an object whose TEXT layer writes a visible marker into the same byte buffer:
+    anything the command prints to stdout besides the document shows), stderr captured; logging / warnings state restored afterwards.
+    Required as in C.
+ C. CLI cases (a few per call: a subprocess each; a third of them with -q/-v/--noisy): `python -m markdown` with -e/-o/-f/-x/-c/-n, input file or stdin (stdin:
     PYTHONIOENCODING = the encoding), output file or stdout or IN PLACE (`-f <the input file>`; the first command-line case
     of every call is in place, a quarter of the others with a file input); bytes compared as in A.
 
@@ -99,11 +112,50 @@ def trigger_text(kw):
     return t
 
 
+def resolve_pynames(obj):
+    """{'@pyname': 'pkg.mod.attr'} (the json-able stand-in for a `!!python/name:pkg.mod.attr` value) -> the object"""
+    import importlib
+    if isinstance(obj, dict):
+        if list(obj) == ['@pyname']:
+            mod, attr = obj['@pyname'].rsplit('.', 1)
+            return getattr(importlib.import_module(mod), attr)
+        return {k: resolve_pynames(v) for k, v in obj.items()}
+    if isinstance(obj, list): return [resolve_pynames(v) for v in obj]
+    return obj
+
+
+def has_pyname(obj):
+    if isinstance(obj, dict): return list(obj) == ['@pyname'] or any(has_pyname(v) for v in obj.values())
+    return isinstance(obj, list) and any(has_pyname(v) for v in obj)
+
+
 def expected_bytes(data, enc, kw):
     import markdown
     e = enc or 'utf-8'
     text = data.decode(e).lstrip('﻿')
-    return markdown.markdown(text, **json.loads(json.dumps(kw))).encode(e, 'xmlcharrefreplace')
+    return markdown.markdown(text, **resolve_pynames(json.loads(json.dumps(kw)))).encode(e, 'xmlcharrefreplace')
+
+
+BOM_ENCODINGS = ['utf-16', 'utf-32', 'utf-8-sig']
+BLOCK = 65536
+
+
+def big_doc(rng, enc0, counters):
+    """a document whose HTML is longer than 64Ki characters (sometimes than 128Ki): a few ordinary pieces around a filler"""
+    p = pool(enc0)
+    size = rng.randint(BLOCK + 64, BLOCK + 4500) if rng.random() < 0.8 else rng.randint(2 * BLOCK + 64, 2 * BLOCK + 1000)
+    words = ['word', 'x', 'lorem ipsum', 'a', '&', '<b>', 'q"q', ''.join(rng.choice(p) for _ in range(3)), rng.choice(p), rng.choice(p) * 2]
+    kind = rng.choice(['code', 'raw', 'para'])
+    lines = []; total = 0
+    while total < size:
+        ln = ' '.join(rng.choice(words) for _ in range(rng.randint(4, 14)))
+        if kind == 'para': ln = ln.replace('<b>', 'b').replace('&', 'and')
+        lines.append(('    ' if kind == 'code' else '') + ln); total += len(ln) + 1
+    filler = '\n'.join(lines)
+    if kind == 'raw': filler = '<div>\n' + filler + '\n</div>'
+    head = fit(rng, D.document(rng, 1, 2, counters=counters), enc0) if rng.random() < 0.7 else ''
+    tail = rng.choice(['', '', 'end *of* text ' + rng.choice(p)])
+    return '\n\n'.join(x for x in (head, filler, tail) if x)
 
 
 class _Out(io.BytesIO):
@@ -262,23 +314,33 @@ def gen_history_case(rng, counters):
     return {'kind': 'history', 'kw': kw, 'steps': steps}
 
 
-def gen_file_case(rng, counters):
-    enc0 = rng.choice(ENCODINGS)
+def gen_file_case(rng, counters, force=None):
+    """force: None | 'big' | 'empty'  (to stdout, in an encoding with a byte-order mark)"""
+    enc0 = rng.choice(BOM_ENCODINGS if force else ENCODINGS)
     enc = enc0
     r = rng.random()
     if r < 0.12 and enc0 in ALIASES: enc = rng.choice(ALIASES[enc0])
     elif r < 0.2 and enc0 == 'utf-8': enc = None
     try: codecs.lookup(enc or 'utf-8')
     except LookupError: enc = enc0
-    doc = fit(rng, D.document(rng, 1, 4, counters=counters), enc0)
+    shape = force
+    if shape is None:
+        r = rng.random()
+        shape = 'big' if r < 0.008 else 'empty' if r < 0.028 else 'doc'
     kw = gen_kwargs(rng)
-    doc += trigger_text(kw)
+    if shape == 'big': doc = big_doc(rng, enc0, counters) + (trigger_text(kw) if rng.random() < 0.5 else '')
+    elif shape == 'empty': doc = rng.choice(['', '', '\n', '   \n\n', '\t', ' '])
+    else:
+        doc = fit(rng, D.document(rng, 1, 4, counters=counters), enc0)
+        doc += trigger_text(kw)
     if rng.random() < 0.1: doc = doc.replace('\n', rng.choice(['\r\n', '\r']))
     case = {'kind': 'file', 'doc': doc, 'enc': enc, 'enc_data': enc0, 'boms': rng.choice([0, 0, 0, 1, 1, 2]) if enc0.startswith('utf') else 0,
             'in': rng.choice(['path', 'path', 'stream', 'stream', 'stdin']), 'out': rng.choice(['path', 'stream', 'stdout']), 'api': rng.choice(['method', 'function']),
             'kw': kw, 'pre': rng.choice(['', '', 'PRE\n']), 'explicit_none': rng.random() < 0.5}
+    if shape != 'doc': case['shape'] = shape
+    if force: case['out'] = 'stdout'
     if case['in'] == 'stdin' and enc0 in ('utf-16', 'utf-32', 'utf-8-sig'): case['in'] = 'stream'   # BOM handling of a text-mode stdin is the io module's
-    if rng.random() < 0.09: case['in'], case['out'] = 'path', 'inplace'      # the output path IS the input path
+    if rng.random() < 0.09 and not force: case['in'], case['out'] = 'path', 'inplace'      # the output path IS the input path
     return case
 
 
@@ -297,6 +359,10 @@ LONG = {'f': 'file', 'e': 'encoding', 'o': 'output_format', 'x': 'extension', 'c
 ABBR = {'f': ['fil', 'fi'], 'e': ['enc', 'en'], 'o': ['output', 'out', 'o'], 'n': ['no_lazy', 'no_'], 'q': ['qui', 'q'], 'v': ['verb', 'verbo'], 'x': ['extension'], 'c': ['extension_c', 'extension_configs']}
 
 
+# functions of standard-library leaf modules that nothing here imports (removed from sys.modules before the options are parsed)
+LAZY_NAMES = ['colorsys.rgb_to_hls', 'colorsys.hls_to_rgb', 'stringprep.in_table_b1', 'quopri.encodestring', 'tabnanny.check', 'sched.scheduler', 'pyclbr.readmodule']
+
+
 def yaml_supported():
     import markdown.__main__ as M
     return getattr(M.yaml_load, '__module__', '').split('.')[0] == 'yaml'
@@ -312,7 +378,9 @@ def config_text(cfg, enc, as_yaml):
         for e, o in cfg.items():
             if not o: lines.append('%s: {}' % e); continue
             lines.append('%s:' % e)
-            for k, v in o.items(): lines.append('  %s: %s' % (k, json.dumps(v, ensure_ascii=ascii_only)))   # JSON scalars/flow maps are YAML
+            for k, v in o.items():
+                if isinstance(v, dict) and list(v) == ['@pyname']: lines.append('  %s: !!python/name:%s' % (k, v['@pyname']))
+                else: lines.append('  %s: %s' % (k, json.dumps(v, ensure_ascii=ascii_only)))   # JSON scalars/flow maps are YAML
         return '\n'.join(lines) + '\n' if lines else '{}\n'
     text = render(False)
     try: text.encode(enc or 'utf-8'); return text
@@ -357,6 +425,11 @@ def gen_argv(rng, tmp):
         elif o == 'c':
             cfg = rng.choice([{}, {'toc': {'permalink': True}}, {'toc': {'title': 'Té', 'baselevel': 2}, 'footnotes': {'BACKLINK_TEXT': 'b'}},
                               {'markdown.extensions.toc': {'separator': '_', 'anchorlink': False}}, {'codehilite': {'linenums': None, 'css_class': 'c'}}])
+            if yaml_supported() and rng.random() < 0.4:
+                # a value given as a Python name in a module that is not imported when the options are parsed
+                nm = rng.choice(LAZY_NAMES)
+                cfg = rng.choice([{'toc': {'slugify': {'@pyname': nm}}}, {'toc': {'permalink': True, 'slugify': {'@pyname': nm}, 'title': 'T'}},
+                                  {'x.y': {'hook': {'@pyname': nm}}, 'footnotes': {'BACKLINK_TEXT': 'b'}}])
             cfgfile = os.path.join(tmp, 'cfg%d.%s' % (len(argv), rng.choice(['json', 'yml', 'conf'])))
             argv += spell('c', cfgfile)
         elif o == 'n': argv += spell('n'); exp['lazy_ol'] = False
@@ -370,7 +443,7 @@ def gen_argv(rng, tmp):
     if positionals: exp['input'] = positionals[0]
     files = []
     if cfgfile is not None:
-        as_yaml = yaml_supported() and rng.random() < 0.5
+        as_yaml = yaml_supported() and (rng.random() < 0.5 or has_pyname(cfg))
         files.append((cfgfile, cfg, as_yaml))
         exp['extension_configs'] = cfg
     return argv, exp, verb, files
@@ -385,6 +458,8 @@ def run_parse_case(case):
         exp = json.loads(json.dumps(case['expected']).replace('@TMP@', tmp))
         for path, cfg, as_yaml in case['files']:
             write_config(path.replace('@TMP@', tmp), cfg, exp['encoding'], as_yaml)
+        if has_pyname(exp):
+            for nm in LAZY_NAMES: sys.modules.pop(nm.split('.')[0], None)      # the named module is not imported when the options are parsed
         err = io.StringIO()
         try:
             with contextlib.redirect_stderr(err):
@@ -393,6 +468,7 @@ def run_parse_case(case):
             return ('SystemExit(%r): %s' % (e.code, err.getvalue()[-300:]), repr((exp, case['verbosity'])))
         except Exception as e:
             return ('%s: %s' % (type(e).__name__, str(e)[:300]), repr((exp, case['verbosity'])))
+        exp = resolve_pynames(exp)
         if got != (exp, case['verbosity']):
             return (repr(got), repr((exp, case['verbosity'])))
         return None
@@ -451,18 +527,27 @@ def gen_cli_case(rng, counters, force_inplace=False):
     enc = rng.choice(ENCODINGS + [None])
     stdin = rng.random() < 0.25 and not force_inplace
     if stdin and enc in ('utf-16', 'utf-32', 'utf-8-sig'): enc = 'utf-8'
-    doc = fit(rng, D.document(rng, 1, 4, counters=counters), enc or 'utf-8')
-    if stdin: doc = doc.replace('﻿', '').replace('\r', '')   # text-mode stdin: BOM and newline translation belong to io, not to markdown
+    r = rng.random()
+    shape = 'big' if r < 0.1 else 'empty' if r < 0.15 else 'doc'
     kw = gen_kwargs(rng)
-    doc += trigger_text(kw)
+    if shape == 'big': doc = big_doc(rng, enc or 'utf-8', counters)
+    elif shape == 'empty': doc = rng.choice(['', '\n', '  \n'])
+    else: doc = fit(rng, D.document(rng, 1, 4, counters=counters), enc or 'utf-8') + trigger_text(kw)
+    if stdin: doc = doc.replace('﻿', '').replace('\r', '')   # text-mode stdin: BOM and newline translation belong to io, not to markdown
+    if 'toc' in kw['extensions'] and yaml_supported() and rng.random() < 0.5:
+        # the documented way to pass a function: a Python name in the YAML file (the extension module is imported later than the file is read)
+        kw['extension_configs'].setdefault('toc', {})['slugify'] = {'@pyname': 'markdown.extensions.toc.' + rng.choice(['slugify_unicode', 'slugify'])}
+        if shape == 'doc': doc += '\n\n# ' + fit(rng, 'Über uns Заголовок 日本', enc or 'utf-8') + '\n\n[TOC]'
     args = []
+    v = rng.choice([None, None, None, None, '-q', '-v', '--noisy', '--noisy'])      # diagnostics go to stderr, never into the document
+    if v: args += [v]
     if enc is not None: args += ['-e', enc]
     fmt = kw.get('output_format', 'xhtml')
     if 'output_format' in kw: args += ['-o', fmt]
     for e in kw['extensions']: args += ['-x', e]
     configs = None; as_yaml = False
     if kw['extension_configs'] or rng.random() < 0.2:
-        configs = kw['extension_configs']; as_yaml = yaml_supported() and rng.random() < 0.5
+        configs = kw['extension_configs']; as_yaml = yaml_supported() and (rng.random() < 0.5 or has_pyname(configs))
         if config_text(configs, enc, as_yaml) is None: configs = {}     # not writable in this encoding (astral character)
         args += ['-c', '@TMP@/cfg.' + ('yml' if as_yaml else 'json')]
     if rng.random() < 0.3: args += ['-n']
@@ -471,6 +556,72 @@ def gen_cli_case(rng, counters, force_inplace=False):
     if outfile: args += ['-f', '@TMP@/in.txt' if inplace else '@TMP@/out.html']      # in.txt is the input file run_cli_case writes and names last
     return {'kind': 'cli', 'inplace': inplace, 'doc': doc, 'enc': enc, 'stdin': stdin, 'stdio_enc': (enc or 'utf-8') if stdin else None, 'args': args, 'exts': kw['extensions'], 'configs': configs,
             'yaml': as_yaml, 'fmt': fmt, 'outfile': outfile}
+
+
+# ---- main(): the command line in process -------------------------------------------------------------------------------------------
+
+@contextlib.contextmanager
+def _logging_state_restored():
+    """run() configures the process-wide logging / warnings machinery: put everything back afterwards"""
+    import logging, warnings
+    lg = logging.getLogger('MARKDOWN'); wl = logging.getLogger('py.warnings')
+    saved = (lg.level, list(lg.handlers), list(wl.handlers), logging._warnings_showwarning)
+    with warnings.catch_warnings():
+        try:
+            yield
+        finally:
+            lg.setLevel(saved[0]); lg.handlers[:] = saved[1]; wl.handlers[:] = saved[2]
+            if saved[3] is None: logging.captureWarnings(False)
+
+
+def run_main_case(case):
+    """-> (got bytes, expected bytes, exit code or None, captured stderr tail); `markdown.__main__.run()` in this process"""
+    import markdown.__main__ as M
+    enc = case['enc']
+    data = case['doc'].encode(enc or 'utf-8')
+    tmp = tempfile.mkdtemp(prefix='c20m_')
+    old = (sys.stdout, sys.stderr, sys.argv)
+    err = io.StringIO(); rc = None
+    try:
+        args = [a.replace('@TMP@', tmp) for a in case['args']]
+        if case['configs'] is not None and '-c' in args:
+            write_config(args[args.index('-c') + 1], case['configs'], enc, case.get('yaml', False))
+        with open(os.path.join(tmp, 'in.txt'), 'wb') as f: f.write(data)
+        args = args + [os.path.join(tmp, 'in.txt')]
+        out = _Stdout()
+        with _logging_state_restored():
+            sys.argv = ['markdown'] + args; sys.stdout = out; sys.stderr = err
+            try:
+                M.run()
+            except SystemExit as e:
+                rc = e.code if e.code is not None else 0
+            except RecursionError:
+                raise
+            except Exception as e:      # the command dies with a traceback (reported unless the string conversion raises too: then `want` below raises)
+                rc = 'raised %s: %s' % (type(e).__name__, str(e)[:200])
+            finally:
+                sys.stdout, sys.stderr, sys.argv = old
+        if case['outfile']:
+            try:
+                with open(os.path.join(tmp, 'out.html'), 'rb') as f: got = f.read()
+            except OSError: got = b'<<no output file>>'
+        else: got = out.buffer.getvalue()
+        kw = {'extensions': case['exts'], 'extension_configs': case['configs'] or {}, 'output_format': case['fmt'], 'lazy_ol': '-n' not in case['args']}
+        want = expected_bytes(data, enc, kw)
+        return got, want, rc, err.getvalue()[-400:]
+    finally:
+        sys.stdout, sys.stderr, sys.argv = old
+        shutil.rmtree(tmp, ignore_errors=True)
+
+
+def gen_main_case(rng, counters):
+    case = gen_cli_case(rng, counters)
+    while case['stdin'] or case['inplace'] or len(case['doc']) > 3000:
+        case = gen_cli_case(rng, counters)
+    case['kind'] = 'main'
+    if not any(a in case['args'] for a in ('-q', '-v', '--noisy')) and rng.random() < 0.5:
+        case['args'] = [rng.choice(['--noisy', '--noisy', '-v'])] + case['args']
+    return case
 
 
 # ---- entry points ---------------------------------------------------------------------------------------------------------------
@@ -482,6 +633,10 @@ def _check(case):
     if k == 'history':
         try: return run_history_case(case)
         finally: case.pop('_steps_run', None)
+    if k == 'main':
+        got, want, rc, err = run_main_case(case)
+        if got != want or rc not in (None, 0): return ('exit=%r %r stderr: %s' % (rc, got[:800], err), repr(want[:800]))
+        return None
     if k == 'cli':
         got, want, rc, err = run_cli_case(case)
         if got != want or rc != 0: return ('rc=%d %r stderr: %s' % (rc, got[:800], err), repr(want[:800]))
@@ -517,8 +672,9 @@ def search(driver, rng, n):
     viol = []; samples = []; seen = set(); cases = 0
     n_cli = max(3, min(300, n // 150))
     n_parse = n * 35 // 100
+    n_main = max(2, n // 60)
     n_hist = max(2, (n - n_parse - n_cli) * 12 // 100)
-    n_file = max(1, n - n_parse - n_cli - n_hist)
+    n_file = max(1, n - n_parse - n_cli - n_hist - n_main)
     for _ in range(n_hist):
         case = gen_history_case(rng, dist['pieces'])
         cases += 1; dist['history_cases'] += 1
@@ -542,7 +698,8 @@ def search(driver, rng, n):
                          'observed': bad[0][:1500], 'required': bad[1][:1500], 'finding': None})
     done = 0
     while done < n_file:
-        case = gen_file_case(rng, dist['pieces'])
+        case = gen_file_case(rng, dist['pieces'], force=('big', 'empty')[done] if done < 2 and n_file >= 20 else None)
+        if case.get('shape'): dist['shape_' + case['shape']] = dist.get('shape_' + case['shape'], 0) + 1
         if not encodable(case):
             dist['skipped_unencodable'] += 1; continue
         done += 1; cases += 1; dist['file_cases'] += 1
@@ -574,10 +731,27 @@ def search(driver, rng, n):
         case = gen_parse_case(rng)
         cases += 1; dist['parse_cases'] += 1
         if case['files']: dist['parse_with_config'] += 1
+        if has_pyname(case['expected']): dist['parse_with_python_name'] = dist.get('parse_with_python_name', 0) + 1
         bad = run_parse_case(case); case.pop('tmp_used', None)
         seen.add(('argv', tuple(case['argv'])))
         if bad and len(viol) < 30:
             viol.append({'input': case, 'config': {}, 'observed': bad[0][:1500], 'required': bad[1][:1500], 'finding': None})
+    for _ in range(n_main):
+        case = gen_main_case(rng, dist['pieces'])
+        try: case['doc'].encode(case['enc'] or 'utf-8')
+        except UnicodeError:
+            dist['skipped_unencodable'] += 1; continue
+        cases += 1; dist['main_cases'] = dist.get('main_cases', 0) + 1
+        if '--noisy' in case['args'] and case['exts'] and not case['outfile']: dist['main_noisy_stdout_with_extension'] = dist.get('main_noisy_stdout_with_extension', 0) + 1
+        try:
+            bad = _check(case)
+        except RecursionError:
+            dist['skipped_exception']['RecursionError'] = dist['skipped_exception'].get('RecursionError', 0) + 1; continue
+        except Exception as e:
+            k = 'main:' + type(e).__name__; dist['skipped_exception'][k] = dist['skipped_exception'].get(k, 0) + 1; continue
+        seen.add(('main', tuple(case['args']), case['doc']))
+        if bad and len(viol) < 30:
+            viol.append({'input': case, 'config': {'argv': case['args']}, 'observed': bad[0][:1500], 'required': bad[1][:1500], 'finding': None})
     for i_cli in range(n_cli):
         case = gen_cli_case(rng, dist['pieces'], force_inplace=(dist['cli_inplace'] == 0))   # at least one in-place run per call
         try: case['doc'].encode(case['enc'] or 'utf-8')
